@@ -124,7 +124,10 @@ Definition entry (sel : Z) (toks : list Z) : list Z :=
              let '(hn, real) := trace_session d leaves in
              (* a view that is not ready: OpenSession skips the recovery *)
              let pods'' := if Z.eqb (nth 5 job 0) 0 then pods' else map (fun p => (0, snd (fst p), snd p)) pods' in
-             let '(subs, jb) := recover_all hn real policy pods'' in
+             let remembered := let a := nth 4 job 0 in if Z.leb a 0 then None else Some (Z.to_pos a) in
+             let '(subs, jb0) := recover_with_memory hn real policy pods'' remembered in
+             (* on a view that is not ready nothing is removed or recovered: the remembered value stays *)
+             let jb := if Z.eqb (nth 5 job 0) 0 then jb0 else Some remembered in
              let table := name_table (scratch (mkEnv [] []) (trace_objs d leaves)) in
              let '(jr, srs) := trace_limits policy (nth 0 job 0) (nth 3 job 0) (nth 7 job 0) (nth 8 job 0) (map fst subs) in
              let '(jl, sls) := adjust false table jr srs in
@@ -162,6 +165,8 @@ Definition entry (sel : Z) (toks : list Z) : list Z :=
                           let* limit := dZ in let* r := dOptPos in let* nodes := dList dPos in
                           ret (hn, real, limit, r, nodes)) toks with
            | Some (hn, real, _, r, nodes) => eBool (law_recorded_lowest hn real r nodes) | None => bad_input end
+  | 114 => match run_dec (dPair dBool dZ) toks with
+           | Some (u, k) => eBool (law_unknown_name_no_bind u k) | None => bad_input end
   | 110 => match run_dec (dPair dBool dZ) toks with
            | Some (nr, k) => eBool (law_not_ready_no_bind nr k) | None => bad_input end
   | 106 => match run_dec (let* objs := dList dObj in let* v := dView in ret (objs, v)) toks with
